@@ -204,6 +204,12 @@ def optV : Option V → Option String
   | some v => some v.show
   | none => none
 
+/-- the mismatch pass comes first, so struct types of the two packages get a recursive ToX / FromX even when they are
+    convertible as Go types (identical layouts): no statement converts one into the other -/
+def nestedMapped (inp : Input) : Bool :=
+  ((plan inp).toStmts ++ (plan inp).fromStmts).all (fun c =>
+    !(c.strat == .conv && (elemOf c.rd.ty).isStructNamed && (elemOf c.wr.ty).isStructNamed))
+
 /-- C05 observables: presence of the two methods, and per written leaf where its value came from -/
 def obs05 (inp : Input) : List (String × String) :=
   if !modelCompiles inp then [("compile", "error")] else
@@ -211,22 +217,27 @@ def obs05 (inp : Input) : List (String × String) :=
     ++ (if toGen inp then
           let o := execTo inp []
           match o with
-          | .value _ => (leavesOf inp.dest).map (fun l => ("to:" ++ joinPath l.path, obsLeaf o l))
+          | .value _ => (leavesOf inp.dest).map (fun l => ("to:" ++ joinPath l.path, obsLeaf o l)) ++
+              [("to:nested", if nestedMapped inp then "ok" else "copied")]
           | _ => [("to:panic", "true")]
         else [])
     ++ (if fromGen inp then
           let o := execFrom inp []
           match o with
           | .value _ => (leavesOf inp.src).map (fun l => ("from:" ++ joinPath l.path, obsLeaf o l)) ++
-              [("from:recv", if fromWritesReceiver inp then "receiver" else "returned-another-pointer"),
+              [("from:nested", if nestedMapped inp then "ok" else "copied"),
+               ("from:recv", if fromWritesReceiver inp then "receiver" else "returned-another-pointer"),
                ("from:reuse", if fromWritesReceiver inp then "receiver" else "returned-another-pointer")]
           | _ => [("from:panic", "true"), ("from:recv", "panic"), ("from:reuse", "panic")]
         else [])
 
 def spec05 (inp : Input) : List (String × String) :=
   [("compile", "ok"), ("to:present", toString (toGen inp)), ("from:present", toString (fromGen inp))]
-    ++ (if toGen inp then (leavesOf inp.dest).filterMap (fun l => (optV (specTo inp l)).map (fun v => ("to:" ++ joinPath l.path, v))) else [])
+    ++ (if toGen inp then (leavesOf inp.dest).filterMap (fun l => (optV (specTo inp l)).map (fun v => ("to:" ++ joinPath l.path, v)))
+          -- nested structs of the two packages are MAPPED (their own tags apply, a pointer gets a fresh target), never copied wholesale
+          ++ [("to:nested", "ok")] else [])
     ++ (if fromGen inp then (leavesOf inp.src).filterMap (fun l => (optV (specFrom inp l)).map (fun v => ("from:" ++ joinPath l.path, v)))
+          ++ [("from:nested", "ok")]
           -- "reads from X, then writes back to receiver and returns it": for a fresh and for a reused receiver
           ++ [("from:recv", "receiver"), ("from:reuse", "receiver")] else [])
 
